@@ -117,15 +117,30 @@ CapUnit(i) ==
       docs |-> << JObj([k \in DOMAIN names |-> KV(names[k], JNum(4 * k))]) >>, nobuild |-> <<>>,
       opts |-> [capitalizations |-> CapLists[i]]]
 
-Pars(f) == CASE f = "siblings" -> Subsets [] f = "types" -> {1, 2} [] f = "caps" -> DOMAIN CapLists [] f = "typeset" -> NodePars
+(* ---- property names with characters that are hostile to struct tags ---- *)
+\* 1-4: legal in a Go raw string but not in an encoding/json tag name (never bound: deviation TagInvalidKeyUnbound);
+\* 5-7: a backtick ends the raw string that holds the tag; a double quote or a newline is legal there (the tag is then
+\* garbage to reflect: unbound) but breaks the interpreted raw["..."] of a required check (the emitted file does not
+\* parse: deviation TagSyntaxBrokenByName); 8-10: punctuation encoding/json does accept (space, colon, equals sign): must simply work
+TagNames == <<"don't", "tab\tkey", "i,j", "e\\f", "a\"b", "c`d", "g\nh", "ok key", "k:l", "a=b">>
+TagUnit(i, req) ==
+  LET n == TagNames[i] IN
+  [prop |-> "C14", fam |-> "tagchars",
+   schema |-> Obj(<<[k |-> n, s |-> Int_], [k |-> "z", s |-> Int_]>>, IF req THEN <<n>> ELSE <<>>), defs |-> <<>>,
+   docs |-> << JObj(<<KV(n, JNum(4)), KV("z", JNum(8))>>), JObj(<<KV(n, JNum(12))>>) >>,
+   \* (a newline is legal inside the raw string that holds the tag, not inside the interpreted raw["..."] of a required check)
+   nobuild |-> IF i = 6 \/ (i \in {5, 7} /\ req) THEN <<"TagSyntaxBrokenByName">> ELSE <<>>]
+
+Pars(f) == CASE f = "tagchars" -> (DOMAIN TagNames) \X BOOLEAN [] f = "siblings" -> Subsets [] f = "types" -> {1, 2} [] f = "caps" -> DOMAIN CapLists [] f = "typeset" -> NodePars
              [] f = "apfield" -> {1} [] f = "rootname" -> {1}
 u == CASE fam = "siblings" -> SibUnit(par) [] fam = "types" -> TypeUnit(par) [] fam = "caps" -> CapUnit(par)
        [] fam = "typeset" -> NodeUnit(par[1], par[2]) [] fam = "apfield" -> ApUnit [] fam = "rootname" -> RootNameUnit
+       [] fam = "tagchars" -> TagUnit(par[1], par[2])
 Set == picked
 
 DesignOK == Set => LET unit == u IN Valid(unit.defs, unit.schema, unit.docs[1], {}, "decl", NoLim) = Acc
 AsIsOK == TRUE
-Init == fam \in {"siblings", "types", "caps", "typeset", "apfield", "rootname"} /\ par = 0 /\ picked = FALSE
+Init == fam \in {"siblings", "types", "caps", "typeset", "apfield", "rootname", "tagchars"} /\ par = 0 /\ picked = FALSE
 Pick == ~picked /\ picked' = TRUE /\ par' \in Pars(fam) /\ UNCHANGED fam
 Next == Pick
 Spec == Init /\ [][Next]_vars
